@@ -440,7 +440,7 @@ func (x *Exec) simple(st *State, fr *Frame, in ssa.Instruction) {
 			hs := ss.heapSort(a.Elem(), true)
 			h := st.heap(key, hs)
 			x.setHeap(st, key, hs, sx("store", h, root, fmt.Sprintf("((as const (Array Int %s)) %s)", ss.sortOf(a.Elem()), ss.zero(a.Elem()))))
-			fr.vals[in] = Val{K: KPtr, Typ: in.Type(), Ptr: &Pointer{Heap: key, Rows: true, Elem: a.Elem(), Root: root, Idx: "0", ArrLen: a.Len(), Fresh: true}}
+			fr.vals[in] = Val{K: KPtr, Typ: in.Type(), Ptr: &Pointer{Heap: key, Rows: true, Elem: a.Elem(), Root: root, Idx: "0", ArrLen: a.Len(), IsArr: true, Fresh: true}}
 			return
 		}
 		if !in.Heap {
@@ -560,7 +560,7 @@ func (x *Exec) simple(st *State, fr *Frame, in ssa.Instruction) {
 			x.check(st, fr, "index", fmt.Sprintf("index-in-range@%s", x.P.pos(in.Pos())), and(sx("<=", "0", idx.T), sx("<", idx.T, sLen(a.T))), in.Pos())
 			fr.vals[in] = Val{K: KPtr, Typ: in.Type(), Ptr: x.elemPtr(a, idx.T)}
 		case KPtr:
-			if a.Ptr == nil || a.Ptr.ArrLen == 0 {
+			if a.Ptr == nil || !a.Ptr.IsArr {
 				bail("IndexAddr on pointer to non-array")
 			}
 			x.nilCheck(st, fr, a, in.Pos())
@@ -568,6 +568,7 @@ func (x *Exec) simple(st *State, fr *Frame, in ssa.Instruction) {
 			np := *a.Ptr
 			np.Idx = plus(a.Ptr.Idx, idx.T)
 			np.ArrLen = 0
+			np.IsArr = false
 			fr.vals[in] = Val{K: KPtr, Typ: in.Type(), Ptr: &np}
 		default:
 			bail("IndexAddr on %v", in.X.Type())
@@ -935,7 +936,7 @@ func (x *Exec) sliceOp(st *State, fr *Frame, in *ssa.Slice) {
 		x.check(st, fr, "slice", fmt.Sprintf("slice-bounds@%s", x.P.pos(in.Pos())), and(sx("<=", "0", lo), sx("<=", lo, hi), sx("<=", hi, lim)), in.Pos())
 		x.define(st, fr, in, Val{K: KSlice, Typ: in.Type(), T: sx("mk_slice", sArr(a.T), plus(sOff(a.T), lo), sx("-", hi, lo), sx("-", lim, lo))})
 	case KPtr:
-		if a.Ptr == nil || a.Ptr.ArrLen == 0 {
+		if a.Ptr == nil || !a.Ptr.IsArr {
 			bail("slice of pointer to non-array")
 		}
 		x.nilCheck(st, fr, a, in.Pos())
